@@ -1,2 +1,65 @@
-(** Theorems for C13: filled in below as the proofs land. *)
-From JL Require Import Base.Json.
+(** * C13: map, filter and reduce have standard higher-order semantics and scoping.
+    Statements only; proofs are in Proofs/Arrays.v and Proofs/ArrayFacts.v. *)
+From Coq Require Import List Bool.
+From JL Require Import Base.Json Base.Lits Base.Monad Model.Ops Spec.Specs Spec.OpSpecs.
+From JL Require Import Proofs.MonadLaws Proofs.Arrays Proofs.ArrayFacts.
+Import ListNotations.
+Local Open Scope m_scope.
+
+(** For every parser P and evaluator E: the model's map / filter / reduce are the specifications
+    (collection evaluated once against the outer data; null is the empty collection, any other
+    non-array an error; the expression evaluated per element with the element - for reduce the
+    object {accumulator, current} - as the entire data). *)
+Theorem C13_map_is_spec :
+  forall (parsed : Type) (P : value -> outcome parsed) (E : parsed -> value -> M value) d c e,
+    map_ parsed P E d [c; e] = map_spec (pe parsed P E) (chk parsed P) d c e.
+Proof. exact map_is_spec. Qed.
+Print Assumptions C13_map_is_spec.
+
+Theorem C13_filter_is_spec :
+  forall (parsed : Type) (P : value -> outcome parsed) (E : parsed -> value -> M value) d c e,
+    filter_ parsed P E d [c; e] = filter_spec (pe parsed P E) (chk parsed P) d c e.
+Proof. exact filter_is_spec. Qed.
+Print Assumptions C13_filter_is_spec.
+
+Theorem C13_reduce_is_spec :
+  forall (parsed : Type) (P : value -> outcome parsed) (E : parsed -> value -> M value) d c e i,
+    reduce_ parsed P E d [c; e; i] = reduce_spec (pe parsed P E) (chk parsed P) d c e i.
+Proof. exact reduce_is_spec. Qed.
+Print Assumptions C13_reduce_is_spec.
+
+(** map preserves the length; filter returns a subsequence (elements unchanged, in order) and,
+    for a test without effects, exactly List.filter. *)
+Theorem C13_map_length :
+  forall (f : value -> M value) xs t ys, mapM f xs = (t, Ok ys) -> length ys = length xs.
+Proof. exact (@mapM_length value value). Qed.
+Print Assumptions C13_map_length.
+
+Theorem C13_filter_subsequence :
+  forall (p : value -> M bool) xs t ys, filterM p xs = (t, Ok ys) -> subseq ys xs.
+Proof. exact filterM_subseq. Qed.
+Print Assumptions C13_filter_subsequence.
+
+Theorem C13_filter_is_List_filter :
+  forall (q : value -> bool) xs, filterM (fun x => ret (q x)) xs = ret (filter q xs).
+Proof. exact filterM_pure. Qed.
+Print Assumptions C13_filter_is_List_filter.
+
+(** Scoping: the outer data reaches these operators only through the collection operand (and
+    reduce's initial value); inside, the element (or {accumulator, current}) is the entire data. *)
+Theorem C13_scoping :
+  forall ev chk d d' c e i,
+    ev c d = ev c d' ->
+    map_spec ev chk d c e = map_spec ev chk d' c e /\
+    filter_spec ev chk d c e = filter_spec ev chk d' c e /\
+    (ev i d = ev i d' -> reduce_spec ev chk d c e i = reduce_spec ev chk d' c e i).
+Proof.
+  intros ev chk d d' c e i H. split; [apply map_scoping, H|]. split; [apply filter_scoping, H|].
+  intros H2. apply reduce_scoping; assumption.
+Qed.
+Print Assumptions C13_scoping.
+
+Theorem C13_reduce_context :
+  forall cur acc, reduce_ctx cur acc = Obj [(s_accumulator, acc); (s_current, cur)].
+Proof. reflexivity. Qed.
+Print Assumptions C13_reduce_context.
